@@ -278,7 +278,7 @@ def main(argv: list[str]) -> int:
                 "exhaustive": bool(getattr(mod, "EXHAUSTIVE", False)),
                 "oracle_evaluations": oracle_stats,
                 "events_by_type": dict(sorted(events.items())),
-                "anchor_coverage": {k: {"lines_seen": v["lines_seen"], "lines_total": v["lines_total"]} for k, v in coverage.items()},
+                "anchor_coverage": {k: {"lines_seen": v["lines_seen"], "lines_total": v["lines_total"], "lines_missed": v.get("missed", [])} for k, v in coverage.items()},
                 "known_findings_seen": [{"key": k, "failing_checks": n} for k, n in known_seen],
                 "inconclusive": inconclusive,
                 "inconclusive_cases": bad_cases[:10],
